@@ -1013,3 +1013,231 @@ def dc_tags(i: int, spec: dict) -> set[str]:
             tags |= {f"nested:{x}" for x in dc_tags(j, spec) if not x.startswith("nested:")}
     tags.add(f"depth={dc_depth(d, spec)}")
     return tags
+
+
+# --------------------------------------------------------------------------- RPC services (C02 / C06)
+#
+# A *service spec* is JSON: ``{"env": {...}, "methods": [{"name", "params": [{"name", "t", "default"?}], "ret": idx,
+# "ret_t"?: narrower descriptor, "kwonly": bool}]}``.  ``build_service`` execs generated source in a fresh
+# namespace whose annotation names are bound to *real* type objects, so ``typing.get_type_hints`` works.
+
+_RPC_SCALARS = _PLAIN_SCALARS
+_RPC_WIDE = _WIDE_SCALARS
+
+
+def gen_param_type(draw: Draw, spec: dict, *, allow_dc: bool = True, allow_opt: bool = True) -> dict:
+    """A parameter / result annotation the README documents for RPC methods.
+
+    scalars (plain and explicit widths / temporal / decimal), ``Enum``, dataclass, ``X | None`` of those,
+    ``list`` / ``dict`` / ``frozenset`` **of scalars** (the C02 statement does not claim containers of enums or
+    dataclasses at the parameter level).
+    """
+    enums = list(range(len(spec.get("enums", []))))
+    dcs = list(range(len(spec.get("dcs", [])))) if allow_dc else []
+    cats = ["scalar", "scalar", "wide", "container", "container"]
+    if enums:
+        cats += ["enum", "enum"]
+    if dcs:
+        cats += ["dc", "dc"]
+    c = _choose(draw, cats)
+    if c == "scalar":
+        base = dict(_choose(draw, _RPC_SCALARS))
+    elif c == "wide":
+        base = dict(_choose(draw, _RPC_WIDE))
+    elif c == "enum":
+        base = {"k": "enum", "e": _choose(draw, enums)}
+    elif c == "dc":
+        base = {"k": "dc", "d": _choose(draw, dcs)}
+    else:
+        wide = _chance(draw, 1, 3)
+        kind = _choose(draw, ["list", "dict", "fset"])
+        if kind == "fset":
+            base = {"k": "fset", "of": dict(_choose(draw, _HASHABLE_WIDE if wide else _HASHABLE_SCALARS))}
+        else:
+            el = dict(_choose(draw, _RPC_WIDE if wide else _RPC_SCALARS))
+            if _chance(draw, 1, 5):
+                el = {"k": "opt", "of": el}
+            if kind == "list":
+                base = {"k": "list", "of": el}
+            else:
+                base = {"k": "dict", "key": dict(_choose(draw, _HASHABLE_WIDE if wide else _HASHABLE_SCALARS)), "val": el}
+    if allow_opt and _chance(draw, 1, 4):
+        base = {"k": "opt", "of": base, "form": "outer"}
+    return base
+
+
+def gen_safe_dc_field_type(draw: Draw, spec: dict, *, max_dc_depth: int = 2) -> dict:
+    """Dataclass field grammar restricted to the shapes C03 found to round-trip (so C02 does not re-report C03)."""
+    enums = list(range(len(spec.get("enums", []))))
+    dcs = [i for i, d in enumerate(spec.get("dcs", [])) if dc_depth(d, spec) <= max_dc_depth]
+    cats = ["scalar", "scalar", "wide", "list", "lossy"]
+    if enums:
+        cats += ["enum"]
+    if dcs:
+        cats += ["dc"]
+    c = _choose(draw, cats)
+    can_opt = True
+    if c == "scalar":
+        base = dict(_choose(draw, _PLAIN_SCALARS))
+    elif c == "wide":
+        base = dict(_choose(draw, _WIDE_SCALARS))
+    elif c == "enum":
+        base = {"k": "enum", "e": _choose(draw, enums)}
+    elif c == "dc":
+        base = {"k": "dc", "d": _choose(draw, dcs)}
+        can_opt = False  # Optional[<dataclass>] below the top level: C03 finding null_dc_with_enum
+    elif c == "list":
+        sub = ["scalar", "scalar"] + (["enum"] if enums else []) + (["dc"] if dcs else [])
+        s = _choose(draw, sub)
+        if s == "scalar":
+            el = dict(_choose(draw, _PLAIN_SCALARS))
+            if _chance(draw, 1, 4):
+                el = {"k": "opt", "of": el}
+        elif s == "enum":
+            el = {"k": "enum", "e": _choose(draw, enums)}
+        else:
+            el = {"k": "dc", "d": _choose(draw, dcs)}
+        base = {"k": "list", "of": el}
+    else:
+        if _chance(draw, 1, 2):
+            base = {"k": "fset", "of": dict(_choose(draw, _HASHABLE_SCALARS))}
+        else:
+            base = {"k": "dict", "key": dict(_choose(draw, _HASHABLE_SCALARS)), "val": dict(_choose(draw, _PLAIN_SCALARS))}
+    if can_opt and _chance(draw, 1, 4):
+        base = {"k": "opt", "of": base, "form": "inner" if has_wide(base) else "outer"}
+    return base
+
+
+def gen_rpc_env(draw: Draw, *, max_dcs: int = 2) -> dict:
+    spec: dict[str, Any] = {"enums": [], "dcs": []}
+    for i in range(draw(_upto(2))):
+        spec["enums"].append(gen_enum_spec(draw, i))
+    for i in range(draw(_upto(max_dcs))):
+        names = _gen_subset(draw, FIELD_NAMES, 1, 4)
+        fields: list[dict] = []
+        for name in names:
+            t = gen_safe_dc_field_type(draw, spec)
+            f: dict[str, Any] = {"name": name, "t": t}
+            if _chance(draw, 1, 5):
+                f["default"] = {"v": gen_value(draw, t, spec, in_set=True), "factory": needs_factory(t)}
+            fields.append(f)
+        if _chance(draw, 1, 4):
+            t = _choose(draw, _TRANSIENT_TYPES[:3])
+            fields.append({"name": "_t0", "t": t, "transient": True, "default": {"v": gen_value(draw, t, spec), "factory": False}})
+        spec["dcs"].append({"name": f"D{i}", "fields": fields, "kw_only": False})
+    return spec
+
+
+_PARAM_NAMES = ["a", "b", "c", "d", "value", "items", "key", "x_1", "naïve", "n"]
+
+
+def gen_method(draw: Draw, spec: dict, idx: int, *, max_params: int = 3) -> dict:
+    names = _gen_subset(draw, _PARAM_NAMES, 1, max_params)
+    params: list[dict] = []
+    for name in names:
+        t = gen_param_type(draw, spec)
+        p: dict[str, Any] = {"name": name, "t": t}
+        if _chance(draw, 1, 3):
+            p["default"] = {"v": gen_value(draw, t, spec, in_set=True)}
+        params.append(p)
+    return {"name": f"m{idx}", "params": params, "ret": draw(_upto(len(params) - 1)), "kwonly": _chance(draw, 1, 4)}
+
+
+def ordered_params(m: dict) -> list[dict]:
+    """Parameters in signature order (defaults last unless keyword-only)."""
+    ps = list(m["params"])
+    if not m.get("kwonly"):
+        ps.sort(key=lambda p: 1 if "default" in p else 0)
+    return ps
+
+
+def build_service(methods: list[dict], env: Env, *, raises: dict | None = None) -> tuple[type, Any, list]:
+    """Create ``(ProtocolClass, implementation, record)``; every invocation appends ``(method, kwargs)`` to ``record``.
+
+    ``raises`` (C06): ``{method_name: exception_instance_factory}`` — the method raises *after* recording.
+    """
+    from typing import Protocol
+
+    ns: dict[str, Any] = {"Protocol": Protocol}
+    psrc = ["class P(Protocol):", '    """Generated echo service."""']
+    isrc = ["class Impl:", "    def __init__(self, rec, raises):", "        self._rec = rec", "        self._raises = raises"]
+    for i, m in enumerate(methods):
+        sig: list[str] = []
+        ps = ordered_params(m)
+        for j, p in enumerate(ps):
+            ns[f"T_{i}_{j}"] = annotation(p["t"], env, where="param")
+            s = f"{p['name']}: T_{i}_{j}"
+            if "default" in p:
+                ns[f"D_{i}_{j}"] = build_value(p["t"], p["default"]["v"], env)
+                s += f" = D_{i}_{j}"
+            sig.append(s)
+        rp = m["params"][m["ret"]]
+        ns[f"R_{i}"] = annotation(m.get("ret_t") or rp["t"], env, where="param")
+        star = "*, " if m.get("kwonly") else ""
+        head = f"    def {m['name']}(self, {star}{', '.join(sig)}) -> R_{i}:"
+        psrc += [head, f'        """Echo {rp["name"]}."""', "        ..."]
+        kw = ", ".join(f"{p['name']!r}: {p['name']}" for p in ps)
+        isrc += [head, f"        self._rec.append(({m['name']!r}, {{{kw}}}))",
+                 f"        if {m['name']!r} in self._raises:", f"            raise self._raises[{m['name']!r}]()",
+                 f"        return {rp['name']}"]
+    exec("\n".join(psrc) + "\n\n" + "\n".join(isrc) + "\n", ns)  # noqa: S102 - generated source, fresh namespace
+    rec: list = []
+    return ns["P"], ns["Impl"](rec, raises or {}), rec
+
+
+import contextlib  # noqa: E402
+
+
+@contextlib.contextmanager
+def open_transport(kind: str, proto: type, impl: Any, **http_kw: Any):  # type: ignore[no-untyped-def]
+    """Yield a client proxy for ``proto`` served by ``impl`` over ``kind`` (all in-process; no thread outlives it)."""
+    import threading
+
+    from vgi_rpc.rpc import RpcConnection, RpcServer, make_pipe_pair
+
+    if kind == "http":
+        from vgi_rpc.http import http_connect
+        from vgi_rpc.http._testing import make_sync_client
+
+        client = make_sync_client(RpcServer(proto, impl), token_key=b"k" * 32, **http_kw)
+        try:
+            with http_connect(proto, client=client) as proxy:
+                yield proxy
+        finally:
+            client.close()
+        return
+    shm = None
+    if kind == "pipe":
+        ct, st_ = make_pipe_pair()
+    elif kind == "unix":
+        from vgi_rpc.rpc._transport import make_unix_pair
+
+        ct, st_ = make_unix_pair()
+    elif kind == "tcp":
+        from vgi_rpc.rpc._transport import make_tcp_pair
+
+        ct, st_ = make_tcp_pair()
+    elif kind == "shm":
+        from vgi_rpc.rpc._transport import ShmPipeTransport
+        from vgi_rpc.shm import ShmSegment
+
+        shm = ShmSegment.create(1024 * 1024)
+        cp, sp = make_pipe_pair()
+        ct, st_ = ShmPipeTransport(cp, shm), ShmPipeTransport(sp, shm)
+    else:
+        raise ValueError(kind)
+    server = RpcServer(proto, impl)
+    th = threading.Thread(target=server.serve, args=(st_,), daemon=True)
+    th.start()
+    try:
+        with RpcConnection(proto, ct) as proxy:
+            yield proxy
+    finally:
+        ct.close()
+        th.join(timeout=10)
+        st_.close()
+        if shm is not None:
+            shm.unlink()
+            shm.close()
+        if th.is_alive():  # pragma: no cover
+            raise RuntimeError(f"server thread for transport {kind} did not exit")
